@@ -70,6 +70,13 @@ type fileJ struct {
 type CdrCase struct {
 	ID string `json:"id"`
 	S  fileJ  `json:"s"`
+	// Mem: how the caller holds the structure's octet strings: "" = each in memory of its own; "blob" = routeing filter,
+	// private extension and payloads are consecutive windows of ONE array (each slice has spare capacity reaching into the
+	// next one's octets), as they are after the package's own Decoding or when cut from a received buffer
+	Mem string `json:"mem"`
+	// Pre: what happened to the encoder before this call: "" = nothing; "failed" = an Encoding of another structure whose
+	// file could not be written (missing directory), its panic recovered by the caller
+	Pre string `json:"pre"`
 }
 
 func patBytes(n, k int) []byte {
@@ -177,6 +184,37 @@ func RunCdrFile(in, out string) error {
 		h := s.Hdr
 		var ip [20]byte
 		copy(ip[:], expand(h.IP))
+		// the caller's memory
+		filterB, extB := expand(h.Filter), expand(h.Ext)
+		var payloads [][]byte
+		for _, cj := range s.Cdrs {
+			payloads = append(payloads, expand(cj.Payload))
+		}
+		if c.Mem == "blob" {
+			total := len(filterB) + len(extB)
+			for _, p := range payloads {
+				total += len(p)
+			}
+			blob := make([]byte, 0, total+64)
+			cut := func(b []byte) []byte {
+				off := len(blob)
+				blob = append(blob, b...)
+				return blob[off:len(blob):cap(blob)] // spare capacity: the octets that follow belong to the next string
+			}
+			filterB, extB = cut(filterB), cut(extB)
+			for k := range payloads {
+				payloads[k] = cut(payloads[k])
+			}
+		}
+		if c.Pre == "failed" {
+			other := cdrFile.CDRFile{Hdr: cdrFile.CdrFileHeader{FileLength: 71, HeaderLength: 66, NumberOfCdrsInFile: 1, FileSequenceNumber: 9,
+				CDRRouteingFilter: []byte("lost-filter"), LengthOfCdrRouteingFilter: 11},
+				CdrList: []cdrFile.CDR{{Hdr: cdrFile.CdrHeader{CdrLength: 5}, CdrByte: []byte("LOST!")}}}
+			func() {
+				defer func() { _ = recover() }()
+				other.Encoding(filepath.Join(dir, "no-such-directory", "x.cdr"))
+			}()
+		}
 		file.Hdr = cdrFile.CdrFileHeader{
 			FileLength: u32(h.FileLength), HeaderLength: u32(h.HeaderLength),
 			HighReleaseIdentifier: uint8(h.HiRel), HighVersionIdentifier: uint8(h.HiVer),
@@ -184,12 +222,12 @@ func RunCdrFile(in, out string) error {
 			FileOpeningTimestamp: tsTo(h.OpenTs), TimestampWhenLastCdrWasAppendedToFIle: tsTo(h.LastTs),
 			NumberOfCdrsInFile: u32(h.NCdrs), FileSequenceNumber: u32(h.FileSeq),
 			FileClosureTriggerReason: cdrFile.FileClosureTriggerReasonType(h.Closure), IpAddressOfNodeThatGeneratedFile: ip,
-			LostCdrIndicator: uint8(h.Lost), LengthOfCdrRouteingFilter: uint16(len(h.Filter)), CDRRouteingFilter: expand(h.Filter),
-			LengthOfPrivateExtension: uint16(len(h.Ext)), PrivateExtension: expand(h.Ext),
+			LostCdrIndicator: uint8(h.Lost), LengthOfCdrRouteingFilter: uint16(len(h.Filter)), CDRRouteingFilter: filterB,
+			LengthOfPrivateExtension: uint16(len(h.Ext)), PrivateExtension: extB,
 			HighReleaseIdentifierExtension: uint8(h.HiExt), LowReleaseIdentifierExtension: uint8(h.LoExt),
 		}
-		for _, cj := range s.Cdrs {
-			p := expand(cj.Payload)
+		for k, cj := range s.Cdrs {
+			p := payloads[k]
 			file.CdrList = append(file.CdrList, cdrFile.CDR{
 				Hdr: cdrFile.CdrHeader{
 					CdrLength: uint16(len(p)), ReleaseIdentifier: cdrFile.ReleaseIdentifierType(cj.Rel), VersionIdentifier: uint8(cj.Ver),
@@ -200,7 +238,8 @@ func RunCdrFile(in, out string) error {
 			})
 		}
 		path := filepath.Join(dir, fmt.Sprintf("f%d.cdr", i))
-		rec := map[string]any{"trace": c.ID, "seq": i, "action": "file", "s": s, "encErr": "", "decErr": "", "bytes": []int{}, "decoded": s}
+		rec := map[string]any{"trace": c.ID, "seq": i, "action": "file", "s": s, "encErr": "", "decErr": "", "bytes": []int{}, "decoded": s,
+			"mem": c.Mem, "pre": c.Pre}
 		guard := func(what string, fn func()) {
 			done := make(chan string, 1)
 			go func() {
